@@ -101,6 +101,14 @@ def main(argv):
         functions.update({'%s [%s]' % (q, bname): v for q, v in eng.functions_run.items()})
         unsupported += [(bname,) + u for u in eng.unsupported]
         assumptions += [a for a in D.assumptions if a not in assumptions]
+        # every clause labelled A-... is assumed where it stands, never discharged: list each one
+        for q, con in D.contracts.items():
+            groups = [con.requires, con.ensures] + list(con.loops.values()) + list(con.asserts.values())
+            for c in (c for g in groups for c in g):
+                if c.label.startswith('A-'):
+                    a = 'assumed clause in %s [%s]: %s' % (q, bname, c.label)
+                    if a not in assumptions:
+                        assumptions.append(a)
         dropped |= eng.dropped
         if hasattr(mod, 'extra_obligations'):
             xs = mod.extra_obligations(repo, D, pid)
